@@ -78,6 +78,62 @@ def encode(kind, x):
     return z3.ZeroExt(56, n), bs
 
 
+XC = {'left': 0, 'stride': 1, 'n': 0, 'items': []}
+
+
+def xcheck_begin(spec):
+    XC.update(left=spec.get('xcheck', 0), stride=max(1, spec.get('xcheck_stride', 3)), n=0, items=[])
+
+
+def xcheck_record(ex, result):
+    """called between push/add and pop of a property query: keep the SMT-LIB2 text of a sample of queries"""
+    if XC['left'] <= 0 or result not in (z3.sat, z3.unsat):
+        return
+    XC['n'] += 1
+    if XC['n'] % XC['stride']:
+        return
+    XC['left'] -= 1
+    XC['items'].append((ex.solver.to_smt2(), 'sat' if result == z3.sat else 'unsat'))
+
+
+def xcheck_run(tag):
+    """re-decide the recorded queries with the stand-alone z3 4.8 and cvc5 binaries; returns (stats, problems)"""
+    import shutil
+    import subprocess
+    import tempfile
+    stats, problems = {}, []
+    if not XC['items']:
+        return stats, problems
+    solvers = []
+    if shutil.which('z3'):
+        solvers.append(('z3-binary', ['z3', '-smt2', '-T:60']))
+    if shutil.which('cvc5'):
+        solvers.append(('cvc5', ['cvc5', '--lang', 'smt2', '--tlimit=60000']))
+    d = tempfile.mkdtemp(prefix='llsym-xc-')
+    try:
+        for i, (text, res) in enumerate(XC['items']):
+            pth = os.path.join(d, 'q%d.smt2' % i)
+            with open(pth, 'w') as f:
+                f.write("(set-logic QF_BV)\n" + text)
+            for name, cmd in solvers:
+                st = stats.setdefault(name, dict(agree=0, undecided=0, disagree=0))
+                try:
+                    r = subprocess.run(cmd + [pth], capture_output=True, text=True, timeout=90)
+                    ans = (r.stdout.strip().split('\n') or [''])[0].strip()
+                except subprocess.TimeoutExpired:
+                    ans = 'timeout'
+                if ans == res:
+                    st['agree'] += 1
+                elif ans in ('sat', 'unsat'):
+                    st['disagree'] += 1
+                    problems.append("%s: solver disagreement on a property query: python z3 says %s, %s says %s" % (tag, res, name, ans))
+                else:
+                    st['undecided'] += 1
+    finally:
+        shutil.rmtree(d, True)
+    return stats, problems
+
+
 class Tally:
     """per-obligation bookkeeping inside a task"""
 
@@ -116,6 +172,7 @@ class Tally:
         r = ex.solver.check()
         ex.stats.solver_s += time.time() - t0
         ex.stats.queries += 1
+        xcheck_record(ex, r)
         out = None
         if r == z3.unsat:
             d['unsat'] += 1
@@ -150,6 +207,7 @@ class Tally:
         r = ex.solver.check()
         ex.stats.solver_s += time.time() - t0
         ex.stats.queries += 1
+        xcheck_record(ex, r)
         ex.solver.pop()
         if r == z3.unsat:
             ex.stats.unsat += 1
@@ -756,14 +814,21 @@ def writer_task(spec):
 
 def run_task(spec):
     try:
+        xcheck_begin(spec)
         if spec['kind'] == 'reader':
-            return reader_task(spec)
-        if spec['kind'] == 'writer':
-            return writer_task(spec)
-        if spec['kind'] in ('blocks', 'header'):
+            r = reader_task(spec)
+        elif spec['kind'] == 'writer':
+            r = writer_task(spec)
+        elif spec['kind'] in ('blocks', 'header'):
             from parts import cc_blocks
-            return cc_blocks.run_task(spec)
-        raise ValueError(spec['kind'])
+            r = cc_blocks.run_task(spec)
+        else:
+            raise ValueError(spec['kind'])
+        xs, xp = xcheck_run(r['tag'])
+        r['xcheck'] = xs
+        if xp:
+            r['problems'] = sorted(set(r['problems'] + xp))
+        return r
     except Exception as e:  # a crashed task is inconclusive, never silently dropped
         import traceback
         return dict(tag="%s.%s.N%s" % (spec.get('kind'), spec.get('op'), spec.get('N')), obligations=[], stats=None, cands=[], samples=[],
